@@ -331,8 +331,9 @@ def writeInto (pt : List Float) (names : List Nat) (vals : List Float) : List Fl
   (names.zip vals).foldl (fun p nv => p.set nv.1 nv.2) pt
 
 /-- kinds whose evaluation counter is known to undercount (line minimisations: the evaluations of
-each bracketing are not counted) are reported under a clause of their own -/
-def lineMinKinds : List String := ["powell", "cg", "simple", "snewton", "meta"]
+each bracketing are not counted; Newton: one count per step whatever the number of
+Felsenstein-Churchill corrections) are reported under a clause of their own -/
+def lineMinKinds : List String := ["powell", "cg", "simple", "snewton", "meta", "newton1"]
 
 def verdictRun (s : S) (o : String) (t : List String) : S × String :=
   let status := t.headD ""
@@ -383,7 +384,7 @@ def verdictRun (s : S) (o : String) (t : List String) : S × String :=
   if !Spec.exitReason s.mx nb tolR then (s1, "FAIL:exit_reason") else
   if steps ≥ 2 && !Spec.budget s.mx nb (some (pn + 1).toNat) then (s1, "FAIL:budget") else
   if steps ≥ 2 && pe > (s.mx : Int) then
-    (s1, if lineMinKinds.contains s.kind then "FAIL:budget_calls_linemin" else "FAIL:budget_calls") else
+    (s1, if lineMinKinds.contains s.kind then "FAIL:budget_calls_undercount" else "FAIL:budget_calls") else
   -- convergence on strictly convex quadratics, constraints never active, a real budget
   match s.hint with
   | some h =>
